@@ -443,7 +443,7 @@ theorem insOne_core {s s' : St} (h : Core s) (axis : Key) (position : Nat) (da0 
           simp only [Option.some.injEq] at hr
           subst hr
           exact core_restore h hc (by simpa using harr)
-            (insCon_wf (by simpa using hmod) (by simpa using hdim) hd (h.wf _ c hc) (by omega)) hchk
+            (insCon_wf (by simpa using hmod) (by intro e; simp [skippedByInsert, e] at hdim) hd (h.wf _ c hc) (by omega)) hchk
         · cases hr
 
 theorem map_insertIdx' {α β} (f : α → β) (x : α) : ∀ (p : Nat) (l : List α), (l.insertIdx p x).map f = (l.map f).insertIdx p (f x) := by
